@@ -254,6 +254,12 @@ def run(ctx):
         i += 1
         if ctx.mine(i):
             k_file(ctx, 14, (1 << 14) + 40, "random", ctx.seed + 3, provider="pus")
+    # wide counters: decimal representations of 6..10 digits, restarts before every call, incl. the wrap
+    for w, start in ((17, 99_990), (20, 999_990), (24, 9_999_990), (24, (1 << 24) - 60), (30, 999_999_990), (32, (1 << 32) - 60), (32, 99_999)):
+        i += 1
+        if ctx.mine(i):
+            k_file(ctx, w, 120, "every", ctx.seed + w, start_at=start)
+            k_file(ctx, w, 120, "never", ctx.seed + w + 1, start_at=start)
     for w in (9, 10, 11, 12, 13, 15):
         i += 1
         if ctx.mine(i):
